@@ -41,7 +41,7 @@ function opOf (n) {
     const c = n.callee
     if (c.type === 'MemberExpression' && !c.computed && c.property.type === 'Identifier') {
       // obj.m.call(x) is treated by the rewriter like a prototype call (method = m)
-      if ((c.property.name === 'call' || c.property.name === 'apply') && c.object.type === 'MemberExpression' && !c.object.computed && c.object.property.type === 'Identifier') {
+      if ((c.property.name === 'call' || c.property.name === 'apply') && c.object.type === 'MemberExpression' && !c.object.__paren && !c.object.computed && c.object.property.type === 'Identifier') {
         return { op: 'method', method: c.object.property.name, tag: c.object.property.name, proto: c.property.name, loosePath: true }
       }
       return { op: 'method', method: c.property.name, tag: c.property.name }
